@@ -250,7 +250,7 @@ public:
 		}
 
 		double q1 = hi / rhs.hi;  // approximate quotient
-		if (std::isfinite(q1)) {
+		if (std::isfinite(q1) && std::isfinite(rhs.hi)) {  // finite / inf is the signed zero q1: there is no residual to refine
 			dd r = fma(-q1, rhs, *this);
 
 			double q2 = r.hi / rhs.hi;
